@@ -157,6 +157,7 @@ def run(scn, log, st):
     order = scn['order']
     log.add('design', h64(repr(sorted((n['id'], n['kind'], tuple(n['ins'])) for n in d['nodes']))), 'order', h64(order))
     b = netlist.Built(d)
+    st.sched(tuple(order), scn.get('perm'), scn.get('late'))      # distinct instantiation schedules
     late = scn.get('late')
     first = order if late is None else order[:late]
     b.build(first)
